@@ -44,9 +44,11 @@ type Scenario struct {
 	BusyFD    int64
 	BusyAudit int64
 	BusyCap   int64 // the rate limiter's GiveMe takes this long
-	Watchers  []WCfg
-	Steps     []Step
-	Tail      int64 // ns to keep the bubble alive after the last step (wind-down)
+	// this many resume events are answered by the listener having Pause() called from a goroutine of its own (and waiting for it)
+	ReactPause int64
+	Watchers   []WCfg
+	Steps      []Step
+	Tail       int64 // ns to keep the bubble alive after the last step (wind-down)
 }
 
 func b2i(b bool) int64 {
@@ -58,8 +60,8 @@ func b2i(b bool) int64 {
 
 func (s *Scenario) WriteHeader(w io.Writer) {
 	fmt.Fprintf(w, "name %s\n", s.Name)
-	fmt.Fprintf(w, "cfg %d %d %d %d %d %d %d %d %d %d %d %d %d\n", s.Gen, s.BufCap, b2i(s.ErrFull), b2i(s.Limiter),
-		s.Flush, s.CapInt, s.Audit, s.MaxOp, s.Pause, s.MaxConc, s.BusyFD, s.BusyAudit, s.BusyCap)
+	fmt.Fprintf(w, "cfg %d %d %d %d %d %d %d %d %d %d %d %d %d %d\n", s.Gen, s.BufCap, b2i(s.ErrFull), b2i(s.Limiter),
+		s.Flush, s.CapInt, s.Audit, s.MaxOp, s.Pause, s.MaxConc, s.BusyFD, s.BusyAudit, s.BusyCap, s.ReactPause)
 	for _, wc := range s.Watchers {
 		fmt.Fprintf(w, "watcher %d %d %d\n", wc.MaxBatch, wc.MaxAttempts, wc.MaxOp)
 	}
@@ -119,6 +121,9 @@ func ReadScenario(path string) (*Scenario, error) {
 			}
 			if len(fs) > 13 {
 				sc.BusyCap = atoi(fs[13])
+			}
+			if len(fs) > 14 {
+				sc.ReactPause = atoi(fs[14])
 			}
 		case "watcher":
 			sc.Watchers = append(sc.Watchers, WCfg{uint32(atoi(fs[1])), uint32(atoi(fs[2])), atoi(fs[3])})
